@@ -6,6 +6,7 @@ pub mod walk;
 pub mod rng;
 pub mod engines;
 pub mod gen;
+pub mod lsp;
 pub mod refsem;
 
 use ctx::{Args, Shard};
